@@ -91,7 +91,7 @@ pub fn run(seed: u64, nkeys: usize, threads: usize, rounds: usize) -> (i64, i64,
         let mut handles = Vec::new();
         for t in 0..threads {
             let (ops, isolated, barrier) = (ops.clone(), isolated.clone(), barrier.clone());
-            let mut st = seed ^ ((round as u64) << 32) ^ ((t as u64 + 1) * 0x9E3779B97F4A7C15);
+            let mut st = seed ^ ((round as u64) << 32) ^ (t as u64 + 1).wrapping_mul(0x9E3779B97F4A7C15);
             handles.push(std::thread::spawn(move || {
                 let n = ops.len();
                 let mut order: Vec<usize> = (0..n).collect();
